@@ -209,8 +209,17 @@ def probe (d : DS) (w : World Val) (h : Handle) : String × Bool :=
   let (yf, yu) := probeKey d w h false
   let other := (h.a + 1) % d.narch
   let hy : Handle := ⟨kindOf false h.kind.isDirect, other, h.key⟩
-  let (oc, ou) := boolField (w.contains d.cfg (routeArch d.ids other hy) h.kind.isDirect)
-  (joinWith " " (tf ++ yf ++ [s!"oc={oc}"]), tu || yu || ou)
+  let ro := routeArch d.ids other hy
+  let direct := h.kind.isDirect
+  let oid := d.ids.getD other 0
+  let fo : List (String × (String × Bool)) :=
+    [ ("oc", boolField (w.contains d.cfg ro direct)),
+      ("or", optField (w.contains d.cfg ro direct) toString),
+      ("od", optField (w.toDirect d.cfg ro direct) fmtKey),
+      ("ov", optField (w.fetch d.cfg ro direct) (fetchStr oid)),
+      ("ob", optField (w.fetch d.cfg ro direct) (fetchStr oid)) ]
+  (joinWith " " (tf ++ yf ++ fo.map (fun (n, (s, _)) => s!"{n}={s}")),
+    tu || yu || fo.any (fun (_, (_, u)) => u))
 
 /-! ### scripted closures -/
 
